@@ -50,7 +50,7 @@ func init() {
 			d.Rule = "one run = 1 publisher (real RTSP/TCP record session or harness stream), 2-5 consumers over {rtsp-tcp, rtsp-udp, rtsp-multicast, ws-rtsp, wsp, http-flv, ws-flv} joining after tape-chosen delays, some leaving early, 30-90 packets (video/audio/RTCP, 20..20000 bytes); " +
 				"each RTP client's frames per channel map to strictly increasing published indices with byte-identical payloads, and every packet published after its PLAY answer arrives (to the end, or to its departure); FLV clients: valid FLV whose NAL/AAC payloads are published units in order, at most once. " +
 				"distinct = decision-sequence hash; non-trivial = at least one pre-emption"
-			d.RequiredProbes = []string{"fan.kind.tcp", "fan.kind.udp", "fan.kind.ws", "fan.kind.wsp", "fan.kind.flv", "fan.kind.wsflv", "fan.kind.mcast", "fan.real-pusher", "fan.left-early", "fan.complete-run-checked", "fan.wsp-pause-resume", "fan.flv-complete-run-checked"}
+			d.RequiredProbes = []string{"fan.kind.tcp", "fan.kind.udp", "fan.kind.ws", "fan.kind.wsp", "fan.kind.flv", "fan.kind.wsflv", "fan.kind.mcast", "fan.real-pusher", "fan.left-early", "fan.complete-run-checked", "fan.wsp-pause-resume", "fan.flv-complete-run-checked", "fan.player-own-channel-numbers"}
 		} else {
 			d.Rule = "same scenario, plus RTSP/TCP and HTTP-FLV clients that stop reading for good (2 KiB window: the server's delivery goroutine blocks in a write); the stream ends by {publisher disconnect, publisher connection reset inside a frame, publisher TEARDOWN, replacement by a new publisher, DELETE /api/v1/streams, Unregist, server shutdown} while consumers are attached, attaching or leaving; " +
 				"every attached client sees its connection closed by the server within 5 simulated seconds, the ended stream's consumer count is 0 (never negative at any sample), rtsp/flv/wsp active counters return to their start values, no UDP socket stays open, no session/delivery/conversion goroutine survives. " +
@@ -85,6 +85,8 @@ type fanConsumer struct {
 	cl       *rtspClient
 	ip       string         // udp: the client's address; mcast: the group address
 	ports    map[string]int // udp/mcast: destination port -> media channel
+	chV, chA int            // tcp/ws/wsp: first interleaved channel number negotiated for video / audio
+	layout   int            // which numbers to ask for
 	dgEnd    int            // mcast: ... and when it left (0: stayed)
 	dgStart  int            // mcast: datagrams the group had received when this member's PLAY was answered
 	played   bool
@@ -133,7 +135,7 @@ func buildSvcFan(tier string, prop string) sim.Scenario {
 		span := time.Duration(nPk) * gap
 		kinds := []string{"tcp", "udp", "ws", "wsp", "flv", "wsflv", "mcast"}
 		for i := 0; i < nCons; i++ {
-			c := &fanConsumer{kind: kinds[tp.Choose(len(kinds))], name: fmt.Sprintf("c%d", i), audio: tp.Choose(3) != 0}
+			c := &fanConsumer{kind: kinds[tp.Choose(len(kinds))], name: fmt.Sprintf("c%d", i), audio: tp.Choose(3) != 0, layout: tp.Choose(5)}
 			if c.kind == "mcast" && !realPusher { // only a pushed stream has a multicast proxy
 				c.kind = "udp"
 			}
@@ -569,7 +571,17 @@ func buildSvcFan(tier string, prop string) sim.Scenario {
 					}
 				} else {
 					for _, f := range c.cl.frames {
-						got = append(got, rx{f.Channel, f.Payload})
+						ch := f.Channel
+						switch {
+						case ch == c.chV || ch == c.chV+1:
+							ch = ch - c.chV
+						case c.audio && (ch == c.chA || ch == c.chA+1):
+							ch = ch - c.chA + 2
+						default:
+							w.Fail("C01/unsubscribed-channel", "%s client %s negotiated interleaved channels %d-%d (video) and %d-%d (audio=%v) and received a frame on channel %d", c.kind, c.name, c.chV, c.chV+1, c.chA, c.chA+1, c.audio, f.Channel)
+							return
+						}
+						got = append(got, rx{ch, f.Payload})
 					}
 				}
 				subscribed := map[int]bool{0: true, 1: true}
@@ -755,7 +767,16 @@ func fanConsume(w *sim.World, sw *svcWorld, c *fanConsumer, base string, pubN fu
 			c.note = "connect: " + err.Error()
 			return
 		}
+		// the interleaved channel numbers are the client's choice: not necessarily the publisher's (0-1, 2-3)
+		lay := [][2]int{{0, 2}, {0, 2}, {4, 6}, {2, 0}, {8, 10}}[c.layout]
+		c.chV, c.chA = lay[0], lay[1]
+		if c.layout > 1 {
+			w.Probe("fan.player-own-channel-numbers")
+		}
 		tr := func(lo int) string {
+			if c.kind == "tcp" || c.kind == "ws" || c.kind == "wsp" {
+				lo = map[int]int{0: c.chV, 2: c.chA}[lo]
+			}
 			if c.kind == "udp" {
 				return fmt.Sprintf("RTP/AVP;unicast;client_port=%d-%d", 5000+lo, 5001+lo)
 			}
